@@ -1,52 +1,55 @@
 #!/usr/bin/env python3
-"""Manual triage helper (never run by checks): turns the violation lists written by a check run
-(replays/<ID>/all_<tier>.jsonl) into known_findings/<ID>.cases.gz, attributing every failing case to
-a finding by the classifier rules in known_findings/<ID>.json ("rules": [[regex on title, finding id], ...]).
-Cases no rule matches are listed and NOT recorded. usage: tools/triage.py <ID> [--tiers quick,thorough]"""
-import gzip, json, os, re, sys
-ROOT = os.path.dirname(os.path.dirname(os.path.abspath(__file__)))
+"""Manual triage helper (never run by checks). Turns the violation lists a check run wrote
+(replays/<ID>/all_<tier>.jsonl) into known_findings/<ID>.json + <ID>.cases.gz: one finding per
+root-cause cluster (the cluster label is assigned by the check's own classifier), each listing the exact
+(case key, wrong-observation digest) pairs it explains. Hand-written notes per cluster are kept in
+known_findings/<ID>.notes.json. Run only after the failing cases have been triaged by hand as genuine.
+usage: tools/triage.py <ID> [--fresh] [--only-tier quick|thorough]"""
+import gzip, json, os, sys
+sys.path.insert(0, os.path.dirname(os.path.dirname(os.path.abspath(__file__))))
+from vlib.core import sha, ROOT
 pid = sys.argv[1]
-kf = json.load(open(os.path.join(ROOT, "known_findings", pid + ".json")))
-rules = [(re.compile(r, re.S), fid) for r, fid in kf.get("rules", [])]
-ids = {f["id"] for f in kf["findings"]}
-rows = {}
-for tier in ("quick", "thorough"):
-    p = os.path.join(ROOT, "replays", pid, "all_%s.jsonl" % tier)
-    if os.path.exists(p):
-        for l in open(p):
-            d = json.loads(l)
-            rows[(d["key"], d["digest"])] = d
-# keep what is already recorded
-old = {}
-p = os.path.join(ROOT, "known_findings", pid + ".cases.gz")
-if os.path.exists(p) and "--fresh" not in sys.argv:
-    for l in gzip.open(p, "rt"):
+kp = os.path.join(ROOT, "known_findings", pid + ".json")
+kf = json.load(open(kp)) if os.path.exists(kp) else {"property": pid, "findings": [], "fixed": []}
+np_ = os.path.join(ROOT, "known_findings", pid + ".notes.json")
+notes = json.load(open(np_)) if os.path.exists(np_) else {}
+cp = os.path.join(ROOT, "known_findings", pid + ".cases.gz")
+cases = {}
+old_f = {f["id"]: f for f in kf.get("findings", [])}
+if os.path.exists(cp) and "--fresh" not in sys.argv:
+    for l in gzip.open(cp, "rt"):
         a = l.split()
         if len(a) == 3:
-            old[(a[0], a[1])] = a[2]
-unmatched = []
-counts = {}
-new = dict(old)
-for (k, dg), d in rows.items():
-    fid = None
-    for rx, f in rules:
-        if rx.search(d["title"]):
-            fid = f
-            break
-    if fid is None:
-        unmatched.append(d["title"])
+            cases[(a[0], a[1])] = a[2]
+found = dict(old_f) if "--fresh" not in sys.argv else {}
+for tier in ("quick", "thorough"):
+    p = os.path.join(ROOT, "replays", pid, "all_%s.jsonl" % tier)
+    if not os.path.exists(p):
         continue
-    assert fid in ids, fid
-    new[(k, dg)] = fid
-for v in new.values():
-    counts[v] = counts.get(v, 0) + 1
-with gzip.open(p, "wt") as f:
-    for (k, dg), fid in sorted(new.items()):
+    for l in open(p):
+        d = json.loads(l)
+        cl = d.get("cluster") or d["title"][:60]
+        fid = "%s-%s" % (pid, sha(cl, 6))
+        cases[(d["key"], d["digest"])] = fid
+        if fid not in found:
+            found[fid] = {"id": fid, "title": cl, "example": d["title"][:400]}
+cnt = {}
+for fid in cases.values():
+    cnt[fid] = cnt.get(fid, 0) + 1
+fl = []
+for fid, f in sorted(found.items(), key=lambda kv: -cnt.get(kv[0], 0)):
+    if cnt.get(fid, 0) == 0:
+        continue
+    f["cases"] = cnt[fid]
+    f["cases_file"] = pid + ".cases.gz"
+    if f["title"] in notes:
+        f.update(notes[f["title"]])
+    fl.append(f)
+kf["findings"] = fl
+json.dump(kf, open(kp, "w"), indent=1)
+with gzip.open(cp, "wt") as f:
+    for (k, dg), fid in sorted(cases.items()):
         f.write("%s %s %s\n" % (k, dg, fid))
-for f in kf["findings"]:
-    f["cases"] = counts.get(f["id"], 0)
-json.dump(kf, open(os.path.join(ROOT, "known_findings", pid + ".json"), "w"), indent=1)
-print("recorded", len(new), "cases;", counts)
-print("UNMATCHED:", len(unmatched))
-for t in unmatched[:40]:
-    print("   ", t[:220])
+print("%s: %d findings, %d cases" % (pid, len(fl), len(cases)))
+for f in fl[:200]:
+    print("  %5d %s  %s" % (f["cases"], f["id"], f["title"][:110]))
